@@ -157,13 +157,17 @@ def run_case(i, rng, tier):
         wmode = rng.choice(["none", 1, 1.0])
         ws = [1.0] * n
     elif wsel < 0.45:
-        wmode = rng.choice([0.5, 2.0, 3, 2])
+        wmode = rng.choice([0.5, 2.0, 3, 2, 1.0 + 2.0**-30, 1.0 - 2.0**-40])
         ws = [float(wmode)] * n
     else:
         wmode = "array"
         ws = [rng.choice([1.0, 1.0, 0.5, 2.0, 0.25, 3.0, 0.0, 0.0, 1.5]) for _ in range(n)]
-        if rng.random() < 0.2:
+        wr = rng.random()
+        if wr < 0.2:
             ws = [1.0] * n  # an array of ones: fast paths again
+        elif wr < 0.3:
+            # weights that are nearly but not exactly one (dyadic, so that sums stay exact): not a unit-weight batch
+            ws = [rng.choice([1.0 + 2.0**-18, 1.0 + 2.0**-18, 1.0 - 2.0**-19, 1.0 + 2.0**-30, 1.0]) for _ in range(n)]
     parts = []
     if n >= 2 and rng.random() < 0.35:
         parts = sorted(set(rng.randint(0, n) for _ in range(rng.randint(1, 2))))
